@@ -13,8 +13,8 @@ CLAIMED = {
  "C07": ("Coq theorems (termination of the fill loops for every component width incl. zero; exact width of the bar body; Format reports its true width for every wrapper tree; truncation; row width <= terminal width for every decorator list) + differential correspondence of the extracted model on direct Fill calls and whole rows + width/UTF-8/termination monitor",
          "Theorems in coq/Props/C07.v over Filler.v/Decor.v for all widths, styles and int64 progress values; tie: 2500+ Fill calls and rows per quick run classified rune by rune and measured with go-runewidth.",
          "7 (C07), 8 (D2)"),
- "C08": ("Coq theorems through Flocq's binary64 semantics (zero, full, range, monotone in current for all int64 values and widths < 2^31, refill <= filled, segments add up) + differential correspondence + exact-arithmetic monitor of the filled cells",
-         "Theorems in coq/Props/C08.v over Percent.v (float64 product and quotient, math.Round) for every int64 total/current; the nearest-cell error bound is monitored, not proved (stated as partial).",
+ "C08": ("Coq theorems through Flocq's binary64 semantics (zero, full, range, monotone in current, nearest cell of the exact quotient, for all int64 values and widths < 2^31, refill <= filled, segments add up) + differential correspondence + exact-arithmetic monitor of the filled cells",
+         "Theorems in coq/Props/C08.v over Percent.v (float64 product and quotient, math.Round) for every int64 total/current; the nearest-cell bound (within 1/2 + 7*2^-53 relative of the exact quotient) is proved too and also monitored with exact arithmetic.",
          "7 (C08), 8 (D3)"),
  "C09": ("Coq theorems over the bar state machine (every operation, every int64 argument, every history) + differential correspondence of the extracted model against the library on seeded operation scripts",
          "Theorems in coq/Props/C09.v quantify over all states/arguments/histories of the model BarState.v; the model is tied to bar.go by running both on the same scripts (3 container modes) and comparing Current/Completed/Aborted/Statistics after every step.",
